@@ -506,6 +506,6 @@ pub fn run(args: &Args) {
     );
     report.assumption("for the checked-in projects the selection tree is read from the reader AST of the same field (no model exists)");
     let ex = driver::negative_int_exclusion();
-    driver::run_single(args, &report, 4000, 120_000, &ex, &oracle);
+    driver::run_single(args, &report, 24_000, 240_000, &ex, &oracle);
     report.finish();
 }
